@@ -464,6 +464,11 @@ class Builtins:
         it = I.as_tuple(self.use_iter(it))
         if isinstance(it, ListV) and it.absorbed is not None:
             it = it.absorbed
+        if isinstance(it, ListV) and getattr(it, "is_iter", False):
+            # an iterator object: a loop over it and next() calls inside the loop body draw from the same supply
+            while it.items:
+                yield ("conc", it.items.pop(0), "")
+            return
         if isinstance(it, (ListV, TupleV, SetV)):
             for x in list(it.items):
                 yield ("conc", x, "")
@@ -1040,6 +1045,9 @@ class Builtins:
 
     def value_method(self, recv: Value, meth: str, args: List[Value], kwargs: Dict[str, Value], node, fr) -> Value:
         I = self.I
+        if meth in ("update", "union", "extend", "intersection", "difference", "issubset", "issuperset", "isdisjoint",
+                    "symmetric_difference", "join"):
+            args = [self.use_iter(a) for a in args]      # these methods iterate their arguments: an iterator is used up
         if isinstance(recv, ListV) and recv.absorbed is not None and meth not in ("append", "extend"):
             recv = recv.absorbed
         if isinstance(recv, Str):
